@@ -81,7 +81,7 @@ SCENARIOS: list[tuple[str, list[list]]] = [
     ("retries", [["call", "tA", "a", "d", None], ["incr", "i0"], ["set", "i0", "pending", "rA"], ["set", "i0", "running", "rA"], ["incr", "i0"], ["set", "i0", "retry", "rA"],
                  ["route", "i0"], ["set", "i0", "pending", "rB"], ["set", "i0", "running", "rB"], ["set", "i0", "failed", "rB"], ["incr", "i0"], ["purge", "orch"], ["retrieve"]]),
     ("state-backend data", [["call", "tA", "a", "d", None], ["call", "tB", "a", "x", "i0"], ["result", "i0", "v1"], ["result", "i0", "v2"], ["exc", "i1", "v1"], ["exc", "i0", "v2"],
-                            ["hist", "i0", "running", "rA", "rB"], ["hist", "i1", "paused", None, "rA"], ["wf", "w1", "k1", "u"], ["wf", "w1", "k1", "v"], ["wf", "w2", "k1", "u"],
+                            ["hist", "i0", "running", "rA", "rB"], ["hist", "i1", "paused", None, "rA"], ["wf", "w1", "k1", "u"], ["wf", "w1", "k1", "v"], ["wf", "w2", "k1", "u"], ["x.wf", "w1", "k1", None], ["x.wf", "w1", "k2", 0], ["x.wf", "w1", "k2", None],
                             ["rctx", "rB", "rP"], ["rctx", "rA", None], ["rctx", "rB", None], ["purge", "sb"], ["rctx", "rA", "rP"], ["result", "i1", "v1"],
                             ["call", "tA", "b", "d", "i0"], ["set", "i0", "pending", "rA"]]),
     ("pagination ties", [["batch", "tA", [["a", "d"], ["b", "x"]]], ["batch", "tB", [["a", "d"], ["a", "d"]]], ["hold"], ["call", "tA", "a", "x", None],
